@@ -37,6 +37,7 @@ def make_cases(rng, tier):
     add('dpa-wshape', dh.base_cfg('dpa', S=1, W=4, wshape=[2, 2]), tmin=-9, tmax=9, combos_q=neg[:1] + neg[5:], combos_t=neg)
     pq = [('float32', 'i16'), ('float64', 'f32q')]
     add('part', dh.base_cfg('part', S=2, W=2, classes=(0, 1, 2)), subs=('anova', 'nicv', 'snr'), tmin=-7, tmax=8, combos_q=pq, combos_t=neg)
+    add('part-undeclared-values', dh.base_cfg('part', S=2, W=2, classes=(1, 2, 4)), subs=('anova', 'snr'), tmax=9, combos_q=pq, combos_t=neg, nrows=n + 1, dvals=[0, 1, 2, 3, 4, 7])
     add('part-10classes', dh.base_cfg('part', S=1, W=1, classes=tuple(range(10))), subs=('anova',), combos_q=pq[:1], combos_t=allp)
     mq = [('uint32', 'u8'), ('float32', 'f32q'), ('float64', 'i16')]
     mt = [(p, q) for p in ('uint32', 'float32', 'float64') for q in ('u8', 'i16', 'f32q', 'f64q')]
@@ -44,6 +45,8 @@ def make_cases(rng, tier):
     add('mia-2words', dh.base_cfg('mia', S=1, W=2, classes=(0, 1), lo=2, width=3, nb=3), tmax=13, combos_q=mq[:1], combos_t=mt)
     tq = [('float32', 'u8'), ('float64', 'f64q')]
     add('tplb', dh.base_cfg('tplb', S=2, W=1, classes=(0, 1, 2)), combos_q=tq, combos_t=allp)
+    add('tplb-undeclared-values', dh.base_cfg('tplb', S=2, W=1, classes=(2, 1)), combos_q=tq, combos_t=allp, dvals=[0, 1, 2, 5])
+    add('mia-undeclared-values', dh.base_cfg('mia', S=1, W=2, classes=(1, 3), lo=0, width=4, nb=3), tmax=14, combos_q=mq[:2], combos_t=mt, dvals=[0, 1, 2, 3, 9])
     add('tplm', dh.base_cfg('tplm', S=2, W=1, classes=(0, 1), tpl=[[1, 2], [3, 1]], ainv=[[2, 1], [1, 3]]), tmax=9, combos_q=allp, combos_t=allp)
     add('tpld', dh.base_cfg('tpld', S=2, W=3, classes=(0, 1, 2), tpl=[[1, 2], [3, 1], [0, 2]], ainv=[[2, 1], [1, 3]]), tmax=9, combos_q=allp, combos_t=allp)
     add('ttest', dh.base_cfg('ttest', S=3, W=1), combos_q=allp, combos_t=allp)
